@@ -98,8 +98,8 @@ T = {
  "C27-r2m2": ("C27", "Normal mode: completing item i is joined with fetching item i+1", "list of objects, a resolver inside a non-last item pending once, an observable lazy item producer", "C27 compares the order of calls and list-item production with the synchronous run and explores over-bound requests by deviation bound"),
  "C28-r2m1": ("C28", "single value for a nested list type wrapped only once", "`[[Int]]` given `1`", ""),
  "C28-r2m2": ("C28", "unknown input-object key scan only runs if the object has more keys than the type has fields", "object with an undeclared key that omits at least as many declared fields", ""),
- "C22-r2m1": ("C22", "DiagnosticList::sort becomes sort_unstable_by_key", "more than 20 diagnostics with two different diagnostics at the same offset (e.g. a variable that is unused and of an undefined type)", ""),
- "C22-r2m2": ("C22", "field-merge argument check iterates the lookup index (a HashMap above 20 arguments)", "two selections with the same response key, more than 20 arguments, two conflicting arguments", ""),
+ "C22-r2m1": ("C22", "DiagnosticList::sort becomes sort_unstable_by_key", "more than 20 diagnostics with two different diagnostics at the same offset (e.g. a variable that is unused and of an undefined type)", "C22 workload w10 (sizes above the 20-element thresholds)"),
+ "C22-r2m2": ("C22", "field-merge argument check iterates the lookup index (a HashMap above 20 arguments)", "two selections with the same response key, more than 20 arguments, two conflicting arguments", "C22 workload w10 (a field with 24 arguments merged with conflicting values)"),
  "C01-r2m1": ("C01", "ty.rs parse: `Some(_)` and `None` arms merged into `_ => Err(Some(p.pop()))`", "token limit exhausted between the `[` of a list type and the next significant token", ""),
  "C01-r2m2": ("C01", "object_field: early return for a missing value between the recursion counter's increment and decrement", "`{ f(arg: {a: b: 1}) }`: an object field's colon directly followed by `name :` (trips the unbalanced-counter assertion)", ""),
  "C05-r2m1": ("C05", "scalar_type_extension no longer requires directives", "`extend scalar Date` with nothing after the name", ""),
@@ -113,7 +113,13 @@ T = {
  "C04-r2m1": ("C04", "Parser::err_at_token pushes the error directly, bypassing the accept_errors check", "a recursion-limit error followed later by a type position whose next token is not a type", ""),
  "C04-r2m2": ("C04", "field_set: a field set without outer braces no longer counts as a nesting level", "brace-less field set through parse_selection_set / parse_field_set with the recursion limit equal to depth - 1", ""),
  "C33-r2m1": ("C33", "__typename recognised by response key instead of field name", "`kind: __typename` (aliased)", ""),
- "C33-r2m2": ("C33", "nullability of a list field judged on its items", "non-null list of nullable items + a null ratio above 0", ""),
+ "C33-r2m2": ("C33", "nullability of a list field judged on its items", "non-null list of nullable items + a null ratio above 0", "C33 workload with `[Int]!`, `[T]!`, `[[Int]]!` fields (added before this seed was evaluated)"),
+ "C23-r2m1": ("C23", "DirectiveArgumentCoordinate::from_str splits on `:)` and drops the rest", "`@d(a:)` followed by at least one more character (7 bytes)", ""),
+ "C23-r2m2": ("C23", "FieldArgumentCoordinate::lookup_ref resolves the field directly and its wildcard arm swallows interfaces", "lookup of an argument of an interface field", ""),
+ "C29-r2m1": ("C29", "is_variable_usage_allowed_at step 3.d compares list item types with == instead of is_assignable_to", "non-null list location, nullable list variable with a default, compatible but not identical item types", ""),
+ "C29-r2m2": ("C29", "validate_implementation_field_types skips a field name already checked against an earlier interface", "two interfaces defining the same field with different types; the implementing field valid for the first, invalid for the later one", ""),
+ "C30-r2m1": ("C30", "Name::with_location repacks the file id with a hard-coded TAG_ARC", "a static name followed by with_location", ""),
+ "C30-r2m2": ("C30", "Hash for Node<T> hashes the header (location) too", "two equal nodes that differ only in location, hashed", ""),
  "C33-m2": ("C33", "collect_fields: a fragment spread's fields replace nothing but are not merged into an already collected key", "same composite response key twice, the later occurrence from a named fragment with an extra sub-field", ""),
 }
 
